@@ -22,7 +22,7 @@ META = ["plain", "target", "target_opts", "type", "target_type_opts", "device", 
 STMTS = ["noargs1", "noargs2_sq", "noargs2_rb", "noargs2_bare", "pos_num", "pos_mixed", "kw_num", "kw_list", "kw_mixed",
          "pos_kw", "measure", "measure_kw", "var_int_mode", "var_float_arg", "var_expr", "var_str_bool", "array_arg",
          "array_idx", "loop_list", "loop_repeat", "loop_range", "trailing_comma", "expr_mode", "complex_arg", "empty_args", "str_like_literals", "number_spellings",
-         "repeat_stmt", "high_index", "int_ops_in_modes"]
+         "repeat_stmt", "high_index", "int_ops_in_modes", "int_divisors", "loop_index_func_kwlist"]
 
 
 class Env:
@@ -151,6 +151,18 @@ def stmt_lines(kind, env):
         return ["int %s = 2" % k, "int array %s =" % a, "    " + ", ".join(lv.int() for _ in range(9)),
                 "BSgate(%s[2**%s], %s[2**3], %s[%s*%s+1]) | [2**%s-1, 2**%s, 3**2*2]" % (a, k, a, a, k, k, k, k),
                 "int n%s = 3**%s" % (k, k), "Vac | [n%s, -(-2)**3, (1+%s)*4]" % (k, k)]
+    if kind == "int_divisors":
+        # quotients whose divisor is a computed integer, an int variable, an element of an int array or a loop variable
+        a, k, x = env.name("M"), env.name("k"), env.name("x")
+        return ["int %s = %s" % (k, lv.int()), "float %s = %s" % (x, lv.float()), "int array %s =" % a, "    %s, %s" % (lv.int(), lv.int()),
+                "Dgate(1/(1+%s), %s/2**2, %s/%s[1], k=%s/(%s*%s[0])) | %s" % (k, x, x, a, lv.int(), k, a, m()),
+                "for int j%s in [%s, %s]" % (k, lv.int(), lv.int()), "    Rgate(%s/(j%s+1), 1/j%s) | %s" % (x, k, k, m())]
+    if kind == "loop_index_func_kwlist":
+        # several features in one statement: a loop variable inside an array index inside a function call / a list-valued keyword
+        # argument / an expression mode
+        a, i = env.name("W"), env.name("i")
+        return ["float array %s =" % a, "    %s, %s, %s" % (lv.float(), lv.float(), lv.float()), "for int %s in [0, 1]" % i,
+                "    Gate(sin(%s[%s]), vals=[%s[%s+1]*2, -%s[%s], %s], k=%s[2*%s]) | [%s+200, %s*%s+300]" % (a, i, a, i, a, i, i, a, i, i, i, i)]
     if kind == "repeat_stmt":
         # the same statement written twice in a row, and a third time after another one: three operations each time
         a, b, x = m(), m(), lv.float()
@@ -182,12 +194,26 @@ def gen(spec, lv):
     return {"text": text, "pre": pre}
 
 
+VARLIKE = ["var_int_mode", "var_float_arg", "var_expr", "var_str_bool", "array_arg", "array_idx", "high_index", "int_ops_in_modes", "loop_list"]
+
+
+def tdm_pair_specs(varlike_only=False):
+    """every ordered pair of statement variants under `type tdm` (tdm programs keep and re-declare their variables: what a
+    statement declares meets what every other statement uses)"""
+    ss = VARLIKE if varlike_only else STMTS
+    return [("type", (a, b)) for a in ss for b in ss]
+
+
 def gen_specs(tier, seed):
     rnd = random.Random(seed)
     specs = []
     for mk in META:
         for s in STMTS:
             specs.append((mk, (s,)))
+    if tier != "sample-only":
+        # the small end: metadata only (no statement at all), with and without a trailing blank line
+        for mk in META:
+            specs.append((mk, ()))
     pairs = list(itertools.product(STMTS, STMTS))
     for (a, b) in pairs:
         specs.append(("plain", (a, b)))
@@ -196,6 +222,8 @@ def gen_specs(tier, seed):
     n3 = 250 if tier == "quick" else 9000
     for t in triples[:n3]:
         specs.append((rnd.choice(META), t))
+    if tier != "sample-only":
+        specs += tdm_pair_specs(varlike_only=(tier == "quick"))
     if tier == "thorough":
         for _ in range(5000):
             specs.append((rnd.choice(META), tuple(rnd.choice(STMTS) for _ in range(rnd.choice((4, 5))))))
@@ -208,7 +236,9 @@ def main():
     rep.rule = ("one case = one skeleton script (metadata variant x statement-variant sequence) run symbolically through blackbird.loads; "
                 "distinct = distinct skeletons; non-trivial = has symbolic literals/modes")
     rep.bounds = {"statements per script": "<=3 (quick) / <=5 (thorough) variants, each 1-4 lines", "metadata variants": len(META),
-                  "statement variants": len(STMTS), "loops": "list of 2, range 2:5"}
+                  "statement variants": len(STMTS), "loops": "list of 2, range 2:5",
+                  "pairs under type tdm": "every ordered pair of the %d declaring variants (quick) / of all variants (thorough)" % len(VARLIKE),
+                  "metadata-only scripts": "one per metadata variant"}
     rep.assumptions = [
         "floats are reals; kinds (int/float/complex) are compared exactly, values by solver",
         "written modes are pairwise distinct unless syntactically the same expression (precondition for the mode-set comparison)",
